@@ -208,6 +208,9 @@ func (g *gen) ipFlagNames(v int) string {
 // toCLI turns the option values of a udp / icmp case into a command line; options left at -1 are
 // omitted so that the flag defaults apply.
 func (g *gen) toCLI(c *Case) {
+	if g.r.Intn(3) == 0 {
+		c.Literal = true
+	}
 	c.Via = "cli"
 	c.Class = c.Kind + "-cli"
 	var a []string
@@ -233,8 +236,20 @@ func (g *gen) toCLI(c *Case) {
 	}
 	if c.HasPl {
 		var sb strings.Builder
-		for _, b := range unhex(c.Pl) {
-			fmt.Fprintf(&sb, `\x%02x`, b)
+		pl := unhex(c.Pl)
+		for k := 0; k < len(pl); k++ {
+			b := pl[k]
+			switch {
+			case c.Literal && (b == ' ' || b == '\t' || b == '\v' || b == '\f' || b == '\r' ||
+				(b > 0x20 && b < 0x7f && b != '\\' && b != '"')):
+				sb.WriteByte(b) // the character itself, blanks included
+			case c.Literal && b == 0xc2 && k+1 < len(pl) && (pl[k+1] == 0x85 || pl[k+1] == 0xa0):
+				sb.WriteByte(b) // U+0085 / U+00A0 as UTF-8
+				sb.WriteByte(pl[k+1])
+				k++
+			default:
+				fmt.Fprintf(&sb, `\x%02x`, b)
+			}
 		}
 		a = append(a, "--payload", sb.String())
 		if len(c.Pl) == 0 {
@@ -363,6 +378,35 @@ func (g *gen) all(n int) {
 	}
 	for i := 0; i < 12; i++ {
 		g.arp()
+	}
+	// payloads written literally on the command line whose first / last characters are white space
+	// (space, tab, \v, \f, \r, U+0085, U+00A0): the datagram must carry them, payload = unquote(raw) exactly
+	blanks := []string{"20", "09", "0b", "0c", "0d", "c285", "c2a0"}
+	for _, kind := range []string{"udp", "icmp"} {
+		for bi, b := range blanks {
+			for shape := 0; shape < 4; shape++ {
+				c := g.base(kind, kind+"-cli-blank")
+				core := hex.EncodeToString([]byte("PING"))
+				switch shape {
+				case 0:
+					c.Pl = b + core
+				case 1:
+					c.Pl = core + b
+				case 2:
+					c.Pl = b
+				default:
+					c.Pl = b + blanks[(bi+3)%len(blanks)] + core + "20" + core + blanks[(bi+1)%len(blanks)] + b
+				}
+				c.HasPl = true
+				c.Literal = true
+				if (bi+shape)%3 == 0 {
+					g.vpn(c)
+				}
+				g.toCLI(c)
+				c.Class = kind + "-cli-blank"
+				g.emit(c)
+			}
+		}
 	}
 	// both addresses in the 16-byte (IPv4-mapped) form, every filler, both link modes
 	for _, kind := range []string{"tcp", "udp", "icmp", "arp"} {
